@@ -4,6 +4,6 @@ CONSTANTS
   PSizes = {4, 8}
   MaxBytes = 51
   LenBits = 5
-  Variant = "noremainder"
+  Variant = "narrow"
 INVARIANT MapLaw
 CHECK_DEADLOCK FALSE
